@@ -74,7 +74,6 @@ Fixpoint checkNames (ok : str -> bool) (names seen : list str) : vres (list str)
            else checkNames ok t seen'
   end.
 
-Definition is_nil {A} (l : list A) : bool := match l with [] => true | _ => false end.
 
 Definition checkLimit (l : limit) (seenU seenG : list str) (q : queue) : vres (list str * list str) :=
   _ <- guard (is_nil (users l) && is_nil (groups l)) ELimitEmpty ;;
